@@ -398,7 +398,7 @@ Definition post_before_authz (o : op) : bool :=
   | _ => false end.
 Definition post_after_authz (o : op) : bool :=
   match o with AddUser | DeleteUser | NewBootstrapOTP | RoleCert => true
-  | U2FRegFinish | WARegFinish => true   (* since fix 6ebb558: a registration is only finished by POST *)
+  | U2FRegFinish | WARegFinish => true   (* since fix 8abc791: a registration is only finished by POST *)
   | _ => false end.
 
 Definition step (c : cfg) (s : store) (r : request) : store * resp :=
